@@ -6,7 +6,7 @@
    (One module per layer only because the layers' models reuse constructor names.) *)
 From Coq Require Import NArith List Bool Arith.
 Import ListNotations.
-From Rodbus Require Spec.Framing Base.Outcome Base.Frame Gen.Consts Gen.RtuLengths Model.Buffer Model.Mbap Model.Rtu Model.Reader Proofs.BufferProofs Proofs.MbapProofs Proofs.RtuProofs Proofs.ReaderGeneric Proofs.C05Proofs Base.ClientTypes Model.ClientRequest Proofs.ClientReplyProofs Proofs.ClientCodecProofs Base.ServerTypes Model.Server Proofs.ServerProofs Proofs.ServerTheorems Model.Retry Spec.Lifecycle Spec.ClientSpec Gen.SessionErrors Model.ClientTask Proofs.ClientBase Proofs.C13Proofs.
+From Rodbus Require Spec.Framing Base.Outcome Base.Frame Gen.Consts Gen.RtuLengths Model.Buffer Model.Mbap Model.Rtu Model.Reader Proofs.BufferProofs Proofs.MbapProofs Proofs.RtuProofs Proofs.ReaderGeneric Proofs.C05Proofs Base.ClientTypes Model.ClientRequest Proofs.ClientReplyProofs Proofs.ClientCodecProofs Base.ServerTypes Model.Server Proofs.ServerProofs Proofs.ServerTheorems Model.Retry Spec.Lifecycle Spec.ClientSpec Gen.SessionErrors Model.ClientTask Proofs.ClientBase Proofs.C13Proofs Proofs.C10Proofs.
 
 Module Framing.
 Import Base.Outcome Base.Frame Gen.Consts Gen.RtuLengths Spec.Framing Model.Buffer Model.Mbap Model.Rtu Model.Reader Proofs.BufferProofs Proofs.MbapProofs Proofs.RtuProofs Proofs.ReaderGeneric Proofs.C05Proofs.
@@ -81,7 +81,7 @@ Print Assumptions C07_server_session_stays_open.
 End ServerSession.
 
 Module ClientTaskShutdown.
-Import Model.Retry Spec.Lifecycle Spec.ClientSpec Gen.SessionErrors Model.ClientTask Proofs.ClientBase Proofs.C13Proofs.
+Import Model.Retry Spec.Lifecycle Spec.ClientSpec Gen.SessionErrors Model.ClientTask Proofs.ClientBase Proofs.C13Proofs Proofs.C10Proofs.
 Local Open Scope N_scope.
 Local Open Scope N_scope.
 
@@ -98,4 +98,13 @@ Theorem C07_client_in_flight_ends : forall cfg s r tx d, ph s = PInFlight r tx d
   let s2 := fst (step cfg s EvTimer) in listens (ph s2) = true \/ ph s2 = PDone.
 Proof. exact c13_in_flight_ends. Qed.
 Print Assumptions C07_client_in_flight_ends.
+
+(* a request whose transmission is parked (a peer that does not read) does not wedge the task either:
+   at the bound of the write (write start + request timeout) it has either been transmitted, or it is
+   completed (with the I/O error) - whatever the transport does, with no release needed (F14) *)
+Theorem C07_client_parked_write_ends : forall cfg s r tx u, ph s = PWriting r tx u ->
+  let s1 := fst (step cfg s (EvTick (fire cfg (wdl s) - now s))) in
+  (exists d, ph (fst (step cfg s1 EvTimer)) = PInFlight r tx d) \/ In (rq_id r) (completed (snd (step cfg s1 EvTimer))).
+Proof. exact writing_not_stuck. Qed.
+Print Assumptions C07_client_parked_write_ends.
 End ClientTaskShutdown.
